@@ -86,22 +86,15 @@ WordThenComment(its, t) ==
 
 \* ---------------------------------------------------------------- rendering
 C(s) == S2C(s)
-\* comment bodies: empty, starting / ending with the characters of the markers, holding the other marker, quotes,
-\* braces, semicolons, a line break, a non-ASCII character (a block comment ends at the first */ after its /*, a line
-\* comment at the line feed; nothing inside means anything)
-BlockBodies == << C(" c "), << >>, C("/"), C("*"), C("/ note "), C(" x /"), C(" x *"), C("/*"), C("//"), C(" // "), C(" } ; { \" ' "),
-                  C(" ") \o <<LF>> \o C(" "), C(" ") \o <<233>> \o C(" "), C("**"), C("/ /* /") >>
-LineBodies == << C(" c"), << >>, C("/"), C("*"), C("/*"), C(" */"), C("*/"), C(" \" ' { ; }"), C(" // x"), C(" /* ") >>
-Block(b) == C("/*") \o b \o C("*/")
-Line(b) == C("//") \o b \o <<LF>>
+\* (the comment bodies BlockBodies / LineBodies and CmtBlock / CmtLine are defined in YangString)
 Blanks == << <<SP>>, <<TAB>>, <<LF>>, <<CR, LF>>, C("   "), <<LF>> \o C("    ") >>
 \* trivia where separation is required (keyword -> argument): blanks, and comments with a blank on either side
 \* (entry 7 has the comment directly after the word: RFC 6020 ends the word there)
-TrivSep == Blanks \o << C("/* c */ ") >> \o [i \in 1..Len(BlockBodies) |-> <<SP>> \o Block(BlockBodies[i]) \o <<SP>>]
-           \o [i \in 1..Len(LineBodies) |-> <<SP>> \o Line(LineBodies[i])] \o << <<LF>> \o C("// x") \o <<LF, TAB>> >>
+TrivSep == Blanks \o << C("/* c */ ") >> \o [i \in 1..Len(BlockBodies) |-> <<SP>> \o CmtBlock(BlockBodies[i]) \o <<SP>>]
+           \o [i \in 1..Len(LineBodies) |-> <<SP>> \o CmtLine(LineBodies[i])] \o << <<LF>> \o C("// x") \o <<LF, TAB>> >>
 \* trivia where none is required
-TrivOpt == << << >> >> \o Blanks \o << <<LF, LF>> \o C("      ") >> \o [i \in 1..Len(BlockBodies) |-> Block(BlockBodies[i])]
-           \o [i \in 1..Len(LineBodies) |-> Line(LineBodies[i])] \o << C(" /* c */ "), C(" // c") \o <<LF>> >>
+TrivOpt == << << >> >> \o Blanks \o << <<LF, LF>> \o C("      ") >> \o [i \in 1..Len(BlockBodies) |-> CmtBlock(BlockBodies[i])]
+           \o [i \in 1..Len(LineBodies) |-> CmtLine(LineBodies[i])] \o << C(" /* c */ "), C(" // c") \o <<LF>> >>
 \* after the last token a // comment may also end with the text
 TrivEnd == TrivOpt \o [i \in 1..Len(LineBodies) |-> C("//") \o LineBodies[i]]
 Pick(menu, P, b) == menu[1 + (P[1 + ((b - 1) % Len(P))] % Len(menu))]
